@@ -146,6 +146,7 @@ def run_campaign(tier, seed):
         rep = json.load(open(out))
         res["replayed"] += rep["n"]
         res["divergences"] += rep["mismatch_count"]
+        res["suggestions"] = res.get("suggestions", 0) + rep.get("suggestions_judged", 0)
         res["samples"] += rep["samples"][:1]
         fam_info = {"states": r.distinct, "replayed": rep["n"], "divergent": rep["mismatch_count"], "spec_invariant_violations": 0}
         # counterexamples of spec-level invariants are replayed on the real code and judged like any other observation
@@ -230,7 +231,8 @@ def run_property(chk, pid):
     chk.extra.update({"definitions": res["definitions"], "gate_rejected": res["gate_rejected"],
                       "replay_divergences": res["divergences"], "benign_divergences": res["benign"],
                       "spec_invariant_counterexamples_replayed": res["spec_cex"], "families": res["families"],
-                      "campaign_wall_s": round(res.get("wall_s", 0), 1), "observations_judged_by_trace_spec": res["judged"]})
+                      "campaign_wall_s": round(res.get("wall_s", 0), 1), "observations_judged_by_trace_spec": res["judged"],
+                      "error_messages_with_did_you_mean_judged": res.get("suggestions", 0)})
     for f in res["findings"]:
         for p in f["props"]:
             base, _, kf = p.partition("#")
